@@ -534,7 +534,9 @@ impl<'a> G<'a> {
             3..=7 => if allow_ins { self.insert() } else { self.ops.push(Op::Query) },
             8 | 9 => self.delete(),
             10 | 11 => self.update(),
-            12..=15 => self.ops.push(Op::Query),
+            12 | 13 => self.ops.push(Op::Query),
+            14 => self.delete(),
+            15 => if allow_ins { self.insert() } else { self.update() },
             16 | 17 => self.find(),
             18 => self.index(),
             19 => if self.rng.chance(1, 3) { self.trunc() } else { self.find() },
@@ -545,15 +547,60 @@ impl<'a> G<'a> {
     fn end_txn(&mut self) { if self.in_txn { self.in_txn = false; let c = self.rng.chance(2, 3); self.ops.push(if c { Op::Commit } else { Op::Rollback }); } }
 }
 
+/// statements that fail (the "malformed" stream): absent tables, existing tables, NULL / duplicate /
+/// negative keys; none of them may change anything
+impl<'a> G<'a> {
+    fn failing(&mut self) {
+        let absent: Vec<usize> = (0..NT).filter(|t| self.kinds[*t].is_none()).collect();
+        match self.rng.below(7) {
+            0 if !absent.is_empty() => { let t = *self.rng.pick(&absent); let b = self.next_b; self.next_b += 1; self.ops.push(Op::Ins(t, vec![(Some(1), b)])); }
+            1 if !absent.is_empty() => { let t = *self.rng.pick(&absent); self.ops.push(if self.rng.chance(1, 2) { Op::Del(t, 10) } else { Op::Upd(t, 10, 11) }); }
+            2 if !absent.is_empty() => { let t = *self.rng.pick(&absent); self.ops.push(Op::Drop(t)); }
+            3 => if let Some(t) = self.some_table() { let k = self.rng.below(3) as u8; self.ops.push(Op::Create(t, k)); },
+            4 => if let Some(t) = self.some_table() {
+                // one-row INSERT that violates a constraint of its table (changes nothing)
+                let b = self.next_b; self.next_b += 1;
+                match self.kinds[t] { Some(1) => self.ops.push(Op::Ins(t, vec![(None, b)])), Some(2) => self.ops.push(Op::Ins(t, vec![(Some(-1 - self.rng.below(5) as i64), b)])), _ => self.ops.push(Op::Del(t, b)) }
+            },
+            5 => if let Some(t) = self.some_table() {
+                // duplicate key (fails when the table has a PRIMARY KEY and holds key 1)
+                let b = self.next_b; self.next_b += 1;
+                if self.kinds[t] == Some(0) { self.live[t].push(b); }
+                self.ops.push(Op::Ins(t, vec![(Some(1), b)]));
+                if self.kinds[t] != Some(0) && self.next_a[t] <= 1 { self.next_a[t] = 2; self.live[t].push(b); }
+            },
+            _ => { let b = self.next_b; self.next_b += 1; if let Some(t) = self.some_table() { self.ops.push(Op::Del(t, b)); } }
+        }
+    }
+}
+
+/// fixed boundary histories, run first in every generated run
+const BOUNDARY: [&str; 14] = [
+    "wal=0 ops=Q",
+    "wal=1 ops=!X !Y !K !P Q",
+    "wal=0 ops=!P !K !Y !X Q",
+    "wal=0 ops=C0k0 !X Q !Y Q !K Q !P Q",
+    "wal=1 ops=C0k2 !X !X !X I0:n.10 Q",
+    "wal=1 ops=C0k1 I0:1.10 !X !Y !K !P !P !K !Y !X Q",
+    "wal=0 ops=C0k2 I0:n.10,n.11,n.12 D0:10 D0:11 D0:12 !X Q !Y Q",
+    "wal=1 ops=C0k0 C1k1 C2k2 I0:n.10 I1:1.11 I2:n.12 !P Q !Y Q R0 R1 R2 !X Q",
+    "wal=1 ops=C0k2 I0:9223372036854775807.10 !X Q",
+    "wal=0 ops=C0k2 I0:9223372036854775806.10 I0:n.11 !Y Q",
+    "wal=1 ops=C0k0 I0:1.10 !K W0 I0:2.11 !P Q",
+    "wal=0 ops=C0k0 W1 I0:1.10 W0 W1 I0:2.11 !P !Y Q",
+    "wal=1 ops=C0k1 I0:1.10,1.11 !P Q",
+    "wal=0 ops=C0k1 I0:1.10,2.11,3.12 U0:10:13 U0:13:14 !Y Q D0:14 !X Q",
+];
+
 /// families; the returned kind is the distribution bucket
 fn gen_history(rng: &mut Rng, thorough: bool, wide: bool) -> (Hist, &'static str) {
     let fam = rng.below(100);
-    let wal = rng.chance(1, 2);
+    let mut wal = rng.chance(1, 2);
     let len = 4 + rng.below(if thorough { 22 } else { 12 }) as usize;
     let mut g = G::new(rng, wide);
     let kind: &'static str;
     g.create();
-    if fam < 30 {
+    if fam < 22 {
         // all inserts happen before the first reopen; afterwards deletes / updates / DDL / queries with reopens in between
         kind = "reopen_no_later_insert";
         let n1 = 2 + g.rng.below(len as u64 / 2 + 1) as usize;
@@ -563,7 +610,7 @@ fn gen_history(rng: &mut Rng, thorough: bool, wide: bool) -> (Hist, &'static str
             if g.rng.chance(1, 3) { g.end_txn(); let c = g.rng.chance(1, 2); g.ops.push(if c { Op::ReopenClose } else { Op::ReopenDrop }); if g.rng.chance(1, 2) { g.ops.push(Op::Query); } }
             else { g.stmt(false); }
         }
-    } else if fam < 55 {
+    } else if fam < 42 {
         // checkpoints of every kind at random points, WAL setting fixed for the whole history, no reopen
         kind = "checkpoints";
         while g.ops.len() < len + 2 {
@@ -574,8 +621,8 @@ fn gen_history(rng: &mut Rng, thorough: bool, wide: bool) -> (Hist, &'static str
                 if g.rng.chance(1, 2) { g.ops.push(Op::Query); }
             } else { g.stmt(true); }
         }
-    } else if fam < 70 {
-        // reopen and checkpoints mixed, inserts only into tables created after the last reopen ... kept simple: no insert after a reopen
+    } else if fam < 55 {
+        // reopen and checkpoints mixed; no insert after a reopen
         kind = "mixed_no_later_insert";
         let mut reopened = false;
         while g.ops.len() < len + 2 {
@@ -587,7 +634,21 @@ fn gen_history(rng: &mut Rng, thorough: bool, wide: bool) -> (Hist, &'static str
                 _ => g.stmt(!reopened),
             }
         }
-    } else if fam < 85 {
+    } else if fam < 66 {
+        // statements that fail, between good ones; interruptions that cannot meet a half-done statement:
+        // WAL off: all four; WAL on: checkpoint() and close + open
+        kind = "failing_statements";
+        let mut reopened = false;
+        while g.ops.len() < len + 2 {
+            match g.rng.below(9) {
+                0 | 1 | 2 => g.failing(),
+                3 => { g.end_txn(); g.ops.push(Op::ReopenClose); reopened = true; }
+                4 => g.ops.push(Op::CkptApi),
+                5 => if !wal { if g.rng.chance(1, 2) { g.end_txn(); g.ops.push(Op::ReopenDrop); reopened = true; } else { g.ops.push(Op::CkptPragma); } } else { g.ops.push(Op::Query) },
+                _ => g.stmt(!reopened),
+            }
+        }
+    } else if fam < 78 {
         // class 1 territory: inserts on both sides of a reopen
         kind = "insert_after_reopen";
         while g.ops.len() < len + 2 {
@@ -598,8 +659,28 @@ fn gen_history(rng: &mut Rng, thorough: bool, wide: bool) -> (Hist, &'static str
                 _ => g.stmt(true),
             }
         }
-    } else {
-        // class 2 territory: the WAL setting changes inside the history (and, wide only, checkpoints inside transactions)
+    } else if fam < 87 {
+        // class 2 territory, directed: an image is logged, then the page changes without being logged
+        // (WAL switched off / a multi-row INSERT that fails on its last row / wide: TRUNCATE, open transaction),
+        // then a replaying checkpoint
+        kind = "stale_image";
+        wal = true;
+        let n0 = 1 + g.rng.below(3);
+        for _ in 0..n0 { g.insert(); }
+        if g.rng.chance(1, 3) { g.ops.push(Op::Query); }
+        let t = g.some_table().unwrap_or(0);
+        match g.rng.below(if wide { 5 } else { 3 }) {
+            0 | 1 => { g.ops.push(Op::Wal(false)); let n = 1 + g.rng.below(3); for _ in 0..n { match g.rng.below(4) { 0 => g.delete(), 1 => g.update(), _ => g.insert() } } }
+            2 => { let b = g.next_b; g.next_b += 2; if g.kinds[t] == Some(0) { g.ops.push(Op::Wal(false)); g.insert(); } else { let a = g.next_a[t] + 5; g.next_a[t] = a + 1; g.live[t].push(b); g.ops.push(Op::Ins(t, vec![(Some(a), b), (Some(a), b + 1)])); } }
+            3 => { if g.kinds[t] == Some(3) { g.ops.push(Op::Wal(false)); g.insert(); } else { g.trunc(); } }
+            _ => { g.ops.push(Op::Begin); g.in_txn = true; g.insert(); if g.rng.chance(1, 2) { g.update(); } }
+        }
+        g.ops.push(if g.rng.chance(1, 2) { Op::CkptPragma } else { if g.in_txn { Op::CkptPragma } else { Op::ReopenDrop } });
+        g.end_txn();
+        g.ops.push(Op::Query);
+        while g.ops.len() < len { g.stmt(false); }
+    } else if fam < 93 {
+        // the WAL setting changes inside the history
         kind = "wal_toggled";
         while g.ops.len() < len + 2 {
             match g.rng.below(10) {
@@ -611,6 +692,23 @@ fn gen_history(rng: &mut Rng, thorough: bool, wide: bool) -> (Hist, &'static str
                 _ => g.stmt(true),
             }
         }
+    } else {
+        // class 3 territory: a table name is dropped and created again, then the database is reopened
+        kind = "drop_recreate";
+        let n0 = 1 + g.rng.below(3);
+        for _ in 0..n0 { g.insert(); }
+        let t = g.some_table().unwrap_or(0);
+        if g.rng.chance(1, 3) { let c = g.rng.chance(1, 2); g.ops.push(if c { Op::ReopenClose } else { Op::ReopenDrop }); g.ops.push(Op::Query); }
+        g.kinds[t] = None; g.live[t].clear(); g.idx[t] = false; g.ops.push(Op::Drop(t));
+        if g.rng.chance(1, 2) { g.ops.push(Op::Query); }
+        let k = g.rng.below(3) as u8;
+        g.kinds[t] = Some(k); g.next_a[t] = 1; g.ops.push(Op::Create(t, k));
+        let n1 = g.rng.below(3);
+        for _ in 0..n1 { g.insert(); }
+        g.ops.push(Op::Query);
+        let c = g.rng.chance(1, 2); g.ops.push(if c { Op::ReopenClose } else { Op::ReopenDrop });
+        g.ops.push(Op::Query);
+        while g.ops.len() < len { g.stmt(false); }
     }
     g.end_txn();
     g.ops.push(Op::Query);
@@ -639,12 +737,13 @@ fn case_term(h: &Hist, oa: &[Obs], ob: &[Obs]) -> String {
 
 fn gen(a: &Args) {
     let mut rng = Rng::new(a.seed);
-    let mut w = CaseWriter::new(&a.out, "C04", "Corr.C04", 60);
+    let mut w = CaseWriter::new(&a.out, "C04", "Corr.C04", 25);
     let dir = scratch();
     let mut hists: Vec<(Hist, &'static str)> = vec![];
     if let Some(lines) = a.replay_lines() {
         for l in lines { if l.starts_with('#') { continue; } match parse_hist(&l) { Some(h) => hists.push((h, "replay")), None => eprintln!("c04: cannot parse replay line: {}", l) } }
     } else {
+        for l in BOUNDARY { hists.push((parse_hist(l).expect("boundary history"), "boundary")); }
         let n = if a.thorough() { 1500 } else { 260 };
         for i in 0..n { let wide = i % 3 == 2; hists.push(gen_history(&mut rng, a.thorough(), wide)); }
     }
@@ -668,6 +767,16 @@ fn gen(a: &Args) {
         w.count(if modelled { "lang:modelled" } else { "lang:blackbox" }, 1);
         w.count(&format!("class:{}", cls), 1);
         w.count(if h.wal { "wal:on" } else { "wal:off" }, 1);
+        for op in &h.ops {
+            let b = match op {
+                Op::ReopenClose => "int:close+open", Op::ReopenDrop => "int:drop+open", Op::CkptApi => "int:checkpoint()", Op::CkptPragma => "int:PRAGMA wal_checkpoint", Op::AutoCkpt => "int:auto checkpoint",
+                Op::Create(..) => "stmt:create", Op::Drop(_) => "stmt:drop", Op::Ins(..) => "stmt:insert", Op::Bulk(..) => "stmt:insert text rows", Op::Del(..) => "stmt:delete", Op::Upd(..) => "stmt:update",
+                Op::Trunc(_) => "stmt:truncate", Op::CIdx(_) | Op::DIdx(_) => "stmt:create/drop index", Op::Find(..) => "stmt:select where b", Op::Begin | Op::Commit | Op::Rollback => "stmt:begin/commit/rollback",
+                Op::Wal(_) => "stmt:pragma wal", Op::Query => "stmt:observe all tables",
+            };
+            w.count(b, 1);
+        }
+        for x in oa.iter().chain(ob.iter()) { if let Obs::Err(_) = x { w.count("out:statement error", 1); } if let Obs::Weird(_) = x { w.count("out:weird", 1); } }
     }
     let _ = std::fs::remove_dir_all(&dir);
     w.finish(&[("interruptions".to_string(), n_int.to_string()), ("runs_that_differ".to_string(), n_diff.to_string()), ("modelled_histories".to_string(), n_model.to_string())]);
